@@ -47,11 +47,21 @@ def tokens(actions):
 
 def run(ctx):
     P = ctx.P
-    T = extract(P)
     states = state_names(P)
-    if set(states) != set(NEXT):
-        raise AnalysisError('JsonDumperState members changed: %s' % states)
     loc = 'yatiml/dumper.py'
+    if set(states) != set(NEXT):
+        # the rule decides the emitter by comparing it, cell by cell, with the canonical six-state JSON writer; an emitter with
+        # another set of container states keeps part of "first item or not / key or value" somewhere else (a flag, a counter),
+        # and that is exactly the information whose per-level bookkeeping the table checks
+        r = ctx.rule('R07.1', 'the emitter\'s transition table equals the canonical JSON writer on every reachable cell', floor=1)
+        r.fail('yatiml.dumper:JsonDumperState:states', loc, 'JsonDumperState has the members %s instead of %s: "first item / next item" '
+               'and "key / value" are not tracked per nesting level by the state stack any more (e.g. one shared first-item flag is '
+               'wrong after an empty nested collection: `[[], 1]` -> `[[]1]`)' % (sorted(states), sorted(NEXT)))
+        r.done()
+        S.r12_sinks(ctx)
+        D.r11_1_calltime_writes(ctx, modules=('yatiml.dumper', 'yatiml.representers'))
+        return
+    T = extract(P)
     key = 'yatiml.dumper:Dumper.emit_json:cell:%s'
     r = ctx.rule('R07.1', 'the emitter\'s transition table equals the canonical JSON writer on every reachable cell', floor=60)
 
@@ -183,7 +193,7 @@ def run(ctx):
             'emit does not dispatch to emit_json for JSON dumpers')
     r.done()
     S.r12_sinks(ctx)
-    D.r11_1_calltime_writes(ctx)
+    D.r11_1_calltime_writes(ctx, modules=('yatiml.dumper', 'yatiml.representers'))
     ctx.extra['transducer_cells'] = len(T)
     ctx.extra['sample_cells'] = {'%s/%s/%s' % k: [list(a) for a in v['actions']] for k, v in list(sorted(
         T.items(), key=lambda x: str(x[0])))[:6]}
